@@ -42,6 +42,9 @@ pub enum Tamper {
     WrongKeyForEntity { a: u16, b: u16 },
     /// the entity keeps only a signature of an unknown algorithm / with an unparseable key id
     OnlyUnsupportedSig { which: u16, unparseable: bool },
+    /// bytes appended to a stored signature (re-encoded) / to the verifier's copy of a public key
+    ExtendSig { which: u16, extra: u8 },
+    ExtendKey { which: u16, extra: u8 },
     /// the verifier has no key entry at all for one of the signing entities
     RemoveEntityFromMap { which: u16 },
     /// an entity the verifier has no keys for is added to `signatures`
@@ -381,6 +384,22 @@ pub fn oracle(c: &SignCase, cx: &mut CaseCtx) -> Result<(), String> {
             cx.class("tamper_key_missing");
             Some(false)
         }
+        Tamper::ExtendSig { which, extra } => {
+            let (ent, kid, sig) = &sigs[pick_idx(*which, sigs.len())];
+            let mut raw = b64_decode(sig, false).ok_or("b64")?;
+            raw.extend(std::iter::repeat(*extra).take(1 + (*extra as usize) % 9));
+            set_sig(&mut t, ent, kid, V::Str(b64(&raw, false)));
+            cx.class("tamper_length_extension");
+            Some(false)
+        }
+        Tamper::ExtendKey { which, extra } => {
+            let (ent, kid, _) = &sigs[pick_idx(*which, sigs.len())];
+            let mut k = tmap[ent][kid].as_bytes().to_vec();
+            k.extend(std::iter::repeat(*extra).take(1 + (*extra as usize) % 9));
+            tmap.get_mut(ent).unwrap().insert(kid.clone(), Base64::new(k));
+            cx.class("tamper_length_extension");
+            Some(false)
+        }
         Tamper::RemoveEntityFromMap { which } => {
             let (ent, _, _) = &sigs[pick_idx(*which, sigs.len())];
             tmap.remove(ent);
@@ -511,7 +530,14 @@ pub fn triple_oracle(c: &TripleCase, cx: &mut CaseCtx) -> Result<(), String> {
     let mut pk = public_key(&c.seed).to_vec();
     let mut sig = ring_sign(&c.seed, &c.msg);
     let mut msg = c.msg.clone();
-    match c.mutate % 7 {
+    match c.mutate % 10 {
+        7 => sig.extend(std::iter::repeat((c.bit & 0xff) as u8).take(1 + (c.bit as usize >> 8) % 9)),
+        8 => pk.extend(std::iter::repeat((c.bit & 0xff) as u8).take(1 + (c.bit as usize >> 8) % 9)),
+        9 => {
+            // a valid signature followed by a second valid signature
+            let again = sig.clone();
+            sig.extend(again);
+        }
         1 => {
             let b = pick_idx(c.bit, 512);
             sig[b / 8] ^= 1 << (b % 8);
@@ -532,9 +558,10 @@ pub fn triple_oracle(c: &TripleCase, cx: &mut CaseCtx) -> Result<(), String> {
     let ring_ok = ring_verify(&pk, &msg, &sig);
     let ruma_ok = no_panic_verify(&pk, &sig, &msg)?;
     cx.class(if ring_ok { "triple_valid" } else { "triple_invalid" });
-    cx.nontrivial_if(c.mutate % 7 != 0);
+    cx.nontrivial_if(c.mutate % 10 != 0);
+    cx.class_if(matches!(c.mutate % 10, 7 | 8 | 9), "triple_length_extended");
     if ring_ok != ruma_ok {
-        return Err(format!("verify_canonical_json_bytes = {ruma_ok} but ring = {ring_ok} (mutation {})", c.mutate % 7));
+        return Err(format!("verify_canonical_json_bytes = {ruma_ok} but ring = {ring_ok} (mutation {})", c.mutate % 10));
     }
     let unsupported = verify_canonical_json_bytes(&SigningKeyAlgorithm::from("foo"), &pk, &sig, &msg);
     if unsupported.is_ok() {
@@ -567,6 +594,8 @@ fn tamper() -> impl Strategy<Value = Tamper> {
         1 => any::<u16>().prop_map(|which| Tamper::RemoveKeyFromMap { which }),
         1 => (any::<u16>(), any::<u16>()).prop_map(|(a, b)| Tamper::WrongKeyForEntity { a, b }),
         1 => any::<u16>().prop_map(|which| Tamper::RemoveEntityFromMap { which }),
+        1 => (any::<u16>(), any::<u8>()).prop_map(|(which, extra)| Tamper::ExtendSig { which, extra }),
+        1 => (any::<u16>(), any::<u8>()).prop_map(|(which, extra)| Tamper::ExtendKey { which, extra }),
         1 => (any::<u16>(), any::<bool>()).prop_map(|(from, garbage)| Tamper::AddEntityWithoutKeys { from, garbage }),
         1 => (any::<u16>(), any::<bool>()).prop_map(|(which, unparseable)| Tamper::OnlyUnsupportedSig { which, unparseable }),
         2 => Just(Tamper::ChangeUnsigned),
@@ -601,7 +630,7 @@ pub fn run(ck: &mut Check) {
         },
         oracle,
     );
-    for cls in ["multi_signature", "ring_template_key", "pkcs8_v2_key", "with_unsigned", "tamper_signature_bit", "tamper_key_bit", "tamper_signed_content", "neutral_unsigned_changed", "tamper_key_missing", "key_version_with_other_characters", "tamper_entity_without_keys", "tamper_partial_key_map", "tamper_only_unsupported_signature", "signed_json_larger_than_65535_bytes", "signed_json_at_event_size_limit"] {
+    for cls in ["multi_signature", "ring_template_key", "pkcs8_v2_key", "with_unsigned", "tamper_signature_bit", "tamper_key_bit", "tamper_signed_content", "neutral_unsigned_changed", "tamper_key_missing", "key_version_with_other_characters", "tamper_entity_without_keys", "tamper_partial_key_map", "tamper_length_extension", "tamper_only_unsupported_signature", "signed_json_larger_than_65535_bytes", "signed_json_at_event_size_limit"] {
         ck.floor("sign_verify_histories", cls, 100);
     }
     let n = ck.n(4_000, 100_000);
@@ -634,7 +663,8 @@ pub fn run(ck: &mut Check) {
     );
     ck.floor("malformed_signatures_atomicity", "sign_error", 500);
     let n = ck.n(80_000, 600_000);
-    ck.prop("ring_differential_triples", n, || (crate::keys::seed32(), prop::collection::vec(any::<u8>(), 0..200), 0u8..7, any::<u16>()).prop_map(|(seed, msg, mutate, bit)| TripleCase { seed, msg, mutate, bit }), triple_oracle);
+    ck.prop("ring_differential_triples", n, || (crate::keys::seed32(), prop::collection::vec(any::<u8>(), 0..200), 0u8..10, any::<u16>()).prop_map(|(seed, msg, mutate, bit)| TripleCase { seed, msg, mutate, bit }), triple_oracle);
     ck.floor("ring_differential_triples", "triple_valid", 500);
     ck.floor("ring_differential_triples", "triple_invalid", 2000);
+    ck.floor("ring_differential_triples", "triple_length_extended", 2000);
 }
